@@ -16,7 +16,7 @@ var (
 	WIDs    = []string{"w0", "w1", "w10", "w2"}
 	Apps    = []string{"a0", "a0x"}
 	Entries = []string{"e0", "e0-t"}
-	Idents  = []string{"i0", "i1"}
+	Idents  = []string{"i0", "i1", "i2"}
 	LabelVs = []string{"x", "y"}
 )
 
@@ -224,6 +224,7 @@ type Gen struct {
 	AdvanceStep int64
 	TTLs        []int64
 	lastW       map[string]Op
+	lastProc    *Proc
 	lastN       map[string]Op
 }
 
@@ -249,7 +250,16 @@ func (g *Gen) workload(preferExisting bool) WData {
 }
 
 func (g *Gen) proc() *Proc {
-	return &Proc{App: pick(g.R, Apps), Entry: pick(g.R, Entries), Node: pick(g.R, NodesU), Ident: pick(g.R, Idents)}
+	// half of the draws stay on the (app, entry, node) of the previous one with a
+	// fresh ident, so that several processing markers accumulate on one node
+	if g.lastProc != nil && g.R.Intn(2) == 0 {
+		p := *g.lastProc
+		p.Ident = pick(g.R, Idents)
+		return &p
+	}
+	p := &Proc{App: pick(g.R, Apps), Entry: pick(g.R, Entries), Node: pick(g.R, NodesU), Ident: pick(g.R, Idents)}
+	g.lastProc = p
+	return p
 }
 
 func (g *Gen) nodeArg() NodeArg {
